@@ -7,6 +7,7 @@ import (
 	"go/constant"
 	"go/types"
 	"math/big"
+	"regexp"
 	"strings"
 
 	"golang.org/x/tools/go/ssa"
@@ -79,6 +80,26 @@ func (env *SpecEnv) ghost(key string) (Val, bool) {
 	return VInt{T: Gt(now, head)}, true
 }
 
+// soleRecvChannel: channels are named after the expression they are received from (`results.Next()`
+// is "Next"). When nothing was received under the name a clause uses and the path has received
+// from exactly one channel by `<-`/range at all, that one is meant (the expression was rewritten).
+func (env *SpecEnv) soleRecvChannel(name string) string {
+	if _, ok := env.st.ghosts["recv:"+name+".count"]; ok {
+		return ""
+	}
+	found := ""
+	for k := range env.st.ghosts {
+		if strings.HasPrefix(k, "recv:") && strings.HasSuffix(k, ".ok") {
+			n := strings.TrimSuffix(strings.TrimPrefix(k, "recv:"), ".ok")
+			if found != "" && found != n {
+				return ""
+			}
+			found = n
+		}
+	}
+	return found
+}
+
 // ghostKeys: the counter and (for observers) the was-called flag of a ghost base.
 func ghostKeys(base string) (cnt, flag string) {
 	if strings.HasPrefix(base, "obs:") {
@@ -148,6 +169,15 @@ func (x *Explorer) goalOf(st *State, env *SpecEnv, cl *Clause, kind, site string
 		return g, true
 	}
 	if !st.dry && !st.dead {
+		if (strings.HasPrefix(kind, "inv-") || kind == "after-loop") && x.staleProofAid(st, env, cl, why) {
+			// An invariant that speaks about program state only (no call history) is an aid to
+			// the proof of the postconditions, not part of what is claimed. If it names a
+			// variable that existed when the contracts were written and that the function no
+			// longer has (a flag replaced by an early return, an alias removed), it is set
+			// aside: should the proof need it, the obligations that depended on it fail.
+			st.note("invariant [" + cl.Label + "] of " + x.fnKey + " names a variable the function no longer has and says nothing about call history: set aside (" + why + ")")
+			return nil, false
+		}
 		name := kind + "[" + cl.Label + "]"
 		if site != "" {
 			name += "@" + site
@@ -157,6 +187,68 @@ func (x *Explorer) goalOf(st *State, env *SpecEnv, cl *Clause, kind, site string
 			Query: "; " + why})
 	}
 	return nil, false
+}
+
+var unknownIdentRe = regexp.MustCompile(`unknown identifier "([A-Za-z_][A-Za-z_0-9]*)"`)
+
+// staleProofAid: the clause failed to bind because it names a local variable that the baseline
+// knows and the function no longer has, and it does not read any ghost state.
+func (x *Explorer) staleProofAid(st *State, env *SpecEnv, cl *Clause, why string) bool {
+	m := unknownIdentRe.FindStringSubmatch(why)
+	if m == nil || env.frame == nil || env.frame.fn == nil || x.eng.bindBase == nil {
+		return false
+	}
+	base := x.eng.bindBase[x.eng.fnKey(env.frame.fn)]
+	if base == nil {
+		return false
+	}
+	was := false
+	for _, l := range base.Locals {
+		if l.Name == m[1] {
+			was = true
+		}
+	}
+	if !was {
+		return false
+	}
+	for _, l := range localsOf(env.frame.fn) {
+		if l.Name == m[1] {
+			return false
+		}
+	}
+	return !x.mentionsGhost(st, cl.Expr)
+}
+
+// mentionsGhost: does the expression read observer records or channel counters at all?
+func (x *Explorer) mentionsGhost(st *State, root *SExpr) bool {
+	all := map[string]bool{}
+	if len(st.frames) > 0 && st.frames[0].contract != nil {
+		for _, o := range st.frames[0].contract.Observes {
+			all["obs:"+o.Name] = true
+		}
+	}
+	found := false
+	var walk func(e *SExpr)
+	walk = func(e *SExpr) {
+		if e == nil || found {
+			return
+		}
+		if e.Kind == "call" && len(e.Args) > 0 && e.Args[0].Kind == "ident" {
+			switch e.Args[0].Name {
+			case "recvCount", "recvOpen", "sendCount", "sent", "closeCount", "now":
+				found = true
+				return
+			}
+		}
+		for _, a := range e.Args {
+			walk(a)
+		}
+		for _, h := range e.Hints {
+			walk(h)
+		}
+	}
+	walk(root)
+	return found || x.readsLoopGhost(st, root, all)
 }
 
 // assumeClause assumes a clause; an unbound clause is skipped (a weaker assumption is sound).
@@ -237,10 +329,31 @@ func (env *SpecEnv) lookupLocal(name string) (Val, bool) {
 	}
 	// the variable may have been renamed since the contract was written
 	if env.frame != nil && env.frame.fn != nil {
-		if alt := env.st.eng.rebindLocal(env.frame.fn, name); alt != "" && alt != name {
+		e := env.st.eng
+		if alt := e.rebindLocal(env.frame.fn, name); alt != "" && alt != name {
 			if v, ok := env.lookupLocal1(alt); ok {
-				env.st.note("local " + name + " of " + env.st.eng.fnKey(env.frame.fn) + " no longer exists: clauses naming it are read with " + alt + " (same type, new name)")
+				env.st.note("local " + name + " of " + e.fnKey(env.frame.fn) + " no longer exists: clauses naming it are read with " + alt + " (same type, new name)")
 				return v, true
+			}
+		}
+		// a range loop rewritten as an index loop or the other way round: the hidden index of a
+		// range loop (`rangeindex`: the element just handled, -1 before the first) is the loop
+		// counter minus one
+		if name == "rangeindex" {
+			if iv := e.newCounter(env.frame.fn); iv != "" {
+				if v, ok := env.lookupLocal1(iv); ok {
+					if vi, isInt := v.(VInt); isInt {
+						env.st.note("range loop of " + e.fnKey(env.frame.fn) + " is now an index loop: rangeindex is read as " + iv + " - 1")
+						return VInt{T: Sub(vi.T, IntLit(1))}, true
+					}
+				}
+			}
+		} else if e.wasCounter(env.frame.fn, name) {
+			if v, ok := env.lookupLocal1("rangeindex"); ok {
+				if vi, isInt := v.(VInt); isInt {
+					env.st.note("index loop of " + e.fnKey(env.frame.fn) + " is now a range loop: " + name + " is read as rangeindex + 1")
+					return VInt{T: Add(vi.T, IntLit(1))}, true
+				}
 			}
 		}
 	}
@@ -1006,6 +1119,12 @@ func (env *SpecEnv) quant(e *SExpr) Val {
 	if e.Kind == "forall" {
 		return VInt{T: Forall(bs, body)}
 	}
+	if len(bs) == 1 {
+		// small literal witnesses: what a loop that was unrolled a few times needs
+		for k := int64(0); k <= unrollBound; k++ {
+			hints = append(hints, IntLit(k))
+		}
+	}
 	return VInt{T: &Term{Op: "exists", Sort: SBool, Bound: bs, Args: append([]*Term{body}, hints...)}}
 }
 
@@ -1066,6 +1185,11 @@ func (env *SpecEnv) call(e *SExpr) Val {
 			env.fail("%s(\"channel name\")", name)
 		}
 		key := strings.TrimSuffix(name, "Count") + ":" + args[0].Name + ".count"
+		if _, ok := env.st.ghosts[key]; !ok && name == "recvCount" {
+			if alt := env.soleRecvChannel(args[0].Name); alt != "" {
+				key = "recv:" + alt + ".count"
+			}
+		}
 		if v, ok := env.ghost(key); ok {
 			if vi, isInt := v.(VInt); isInt {
 				return vi
@@ -1080,6 +1204,11 @@ func (env *SpecEnv) call(e *SExpr) Val {
 		}
 		if v, ok := env.st.ghosts["recv:"+args[0].Name+".ok"]; ok {
 			return v
+		}
+		if alt := env.soleRecvChannel(args[0].Name); alt != "" {
+			if v, ok := env.st.ghosts["recv:"+alt+".ok"]; ok {
+				return v
+			}
 		}
 		return VInt{T: env.st.freshSym("never_received", SBool)}
 	case "sent":
